@@ -389,6 +389,8 @@ def wl_history(ctx, rng, i):
         ctx.sample({"carrier": carrier, "selector_universe": uni, "final_object": to_json(obj)})
 
 
+# pure by their documentation: a sample of the calls is repeated in a fresh interpreter, in reverse order (stixmon/echo.py)
+ECHO = ['stix2.markings:get_markings', 'stix2.markings:is_marked']
 WORKLOADS = [
     Workload("history", wl_history, quick=lambda: len(CARRIERS) * 4, thorough=lambda: len(CARRIERS) * 400),
 ]
@@ -416,7 +418,7 @@ MANIFEST = {
              "(selector, marking) pairs; after every operation the resulting marking set and the complete query matrix "
              "(get_markings / is_marked over every selector of the universe and every flag combination) must agree with the model, "
              "and every result must be a valid new version with untouched non-marking content (C05 step oracle under a steered clock). "
-             "The algebraic laws of the property hold in the model by construction, so state agreement after every step implies them."),
+             "The algebraic laws of the property hold in the model by construction, so state agreement after every step implies them. Echo monitor: a sample of the get_markings / is_marked calls is repeated in a fresh interpreter in reverse order and must answer alike."),
     "note": "trusts the set model in stixmon/oracles/markings.py; ambiguous behaviours listed in the assumptions are resynchronised, not judged",
-    "technique": "runtime monitoring: reference-model (set of pairs) checker over recorded operation/query histories",
+    "technique": "runtime monitoring: reference-model (set of pairs) checker over recorded operation/query histories; echo monitor (pure calls repeated in a fresh interpreter)",
 }
